@@ -4,7 +4,7 @@ from ..common import eqstar
 
 PLAN = {
     "quick": {"shards": 8, "cases": 1200, "min_nontrivial": 5000, "budget_s": 300},
-    "thorough": {"shards": 16, "cases": 9000, "min_nontrivial": 60000, "budget_s": 1400},
+    "thorough": {"shards": 16, "cases": 15000, "min_nontrivial": 84000, "budget_s": 1500},
 }
 RULE = ("random plain-data trees (depth <= 5, <= 40 leaves) over null/bool/int (32/64-bit edges, big)/float (NaN, "
         "inf, -0.0, subnormal)/strings (empty, blanks, newlines, look-alikes of true/1/null/~, markup, ]]>, astral, "
